@@ -98,6 +98,7 @@ type epEnv struct {
 	denom    string
 	stack    porttypes.IBCModule
 	seq      uint64
+	batcher  common.Address // forwarding contract: run(amt, k) does k x token.transferFrom(caller, module, amt)
 }
 
 func (e *epEnv) ctx() sdk.Context { return e.n.Ctx() }
@@ -369,9 +370,79 @@ func newEpEnv(cfg epCfg) (*epEnv, error) {
 	default:
 		return nil, fmt.Errorf("unknown kind %q", cfg.Kind)
 	}
+	if cfg.Behaviour == "honest" {
+		// the forwarding contract and the holders' allowances for it (set-up; Approval logs are skipped by the hook)
+		e.batcher = common.HexToAddress("0x00000000000000000000000000000000000ba7c4")
+		if err := (&EvmWorld{N: e.n}).InstallCode(e.ctx(), e.batcher, epBatcherCode(e.contract), nil); err != nil {
+			return nil, err
+		}
+		max := new(big.Int).Sub(new(big.Int).Lsh(big.NewInt(1), 255), big.NewInt(1))
+		for _, h := range e.accts {
+			data, err := e.abi.Pack("approve", e.batcher, max)
+			if err != nil {
+				return nil, err
+			}
+			if ok, es := e.ethTx(h, &e.contract, data, 1_000_000); !ok {
+				return nil, fmt.Errorf("approve batcher: %s", es)
+			}
+		}
+	}
 	e.endBlock()
 	e.beginBlock()
 	return e, nil
+}
+
+// epBatcherCode: calldata = (amt, k); k times token.transferFrom(CALLER, erc20 module, amt); reverts if one fails.
+func epBatcherCode(token common.Address) []byte {
+	a := newAsm()
+	a.push1(0x20)
+	a.op(0x35) // CALLDATALOAD -> k
+	a.push1(0x80)
+	a.op(0x52) // mem[0x80] = k
+	a.label("loop")
+	a.push1(0x80)
+	a.op(0x51, 0x15) // MLOAD, ISZERO
+	a.pushLabel("done")
+	a.op(0x57)
+	sel := new(big.Int).Lsh(new(big.Int).SetBytes([]byte{0x23, 0xb8, 0x72, 0xdd}), 224)
+	a.push32(sel)
+	a.push1(0)
+	a.op(0x52)
+	a.op(0x33) // CALLER
+	a.push1(4)
+	a.op(0x52)
+	a.push20(erc20types.ModuleAddress)
+	a.push1(36)
+	a.op(0x52)
+	a.push1(0)
+	a.op(0x35)
+	a.push1(68)
+	a.op(0x52)
+	a.push1(32)
+	a.push1(0xa0)
+	a.push1(100)
+	a.push1(0)
+	a.push1(0)
+	a.push20(token)
+	a.op(0x5a, 0xf1) // GAS, CALL
+	a.op(0x15)
+	a.pushLabel("fail")
+	a.op(0x57)
+	a.push1(1)
+	a.push1(0x80)
+	a.op(0x51)       // MLOAD
+	a.op(0x03)       // SUB: k - 1
+	a.push1(0x80)
+	a.op(0x52)
+	a.pushLabel("loop")
+	a.op(0x56)
+	a.label("done")
+	a.op(0x00)
+	a.label("fail")
+	a.push1(0)
+	a.push1(0)
+	a.op(0xfd)
+	return a.assemble()
 }
 
 // callBig performs a read-only EVM call that returns one uint256; nil if the call fails or
@@ -484,6 +555,17 @@ func (e *epEnv) step(st epStep) (ok bool, es string) {
 			return false, err.Error()
 		}
 		return e.ethTx(arg("from"), &e.contract, data, 2_000_000)
+	case "evm_batch":
+		if e.batcher == (common.Address{}) {
+			return false, "no forwarding contract for this token"
+		}
+		var data []byte
+		for _, v := range []*big.Int{mustBig(arg("amt")), big.NewInt(int64(st.Args["k"].(float64)))} {
+			var w [32]byte
+			v.FillBytes(w[:])
+			data = append(data, w[:]...)
+		}
+		return e.ethTx(arg("from"), &e.batcher, data, 3_000_000)
 	case "evm_approve":
 		data, err := e.abi.Pack("approve", e.eth(arg("spender")), mustBig(arg("amt")))
 		if err != nil {
